@@ -153,7 +153,7 @@ void run_case(Choices& c, Report& r)
     for (unsigned k = 0; k < nsteps; ++k)
     {
       Step s{};
-      switch (c.weighted({6, 2, 1, (g_prop == "C06" || g_prop == "C03") ? 6u : 2u, g_prop == "C17" ? 8u : 1u}))
+      switch (c.weighted({6, 2, 1, (g_prop == "C06" || g_prop == "C03" || g_prop == "C20") ? 6u : 2u, g_prop == "C17" ? 8u : 1u}))
       {
       case 4: s.kind = 4; s.count = 1 + c.pick(3); total += s.count; break; // logger cycle: create, log a few, remove
       case 3: s.kind = 3; s.count = 2 + c.pick(14); total += s.count; break; // churn: short-lived threads logging for the first time
@@ -369,6 +369,17 @@ void run_case(Choices& c, Report& r)
       auto const& acc = kv.second;
       while (n < acc.size() && acc[n] != 1) ++n;
       if (n < acc.size()) { r.fail("thread " + std::to_string(kv.first) + ": accepted statement #" + std::to_string(n) + " never written after Backend::stop() (lost)"); break; }
+    }
+  }
+  // C20: every frontend thread has been joined and the backend has drained and stopped: no thread context may be retained
+  if (!r.failed)
+  {
+    size_t retained = 0;
+    quill::detail::ThreadContextManager::instance().for_each_thread_context([&retained](quill::detail::ThreadContext*) { ++retained; });
+    if (retained != 0)
+    {
+      r.fail("after all " + std::to_string(accmap.size()) + " logging threads were joined and Backend::stop() returned, " +
+             std::to_string(retained) + " thread contexts are still retained");
     }
   }
   long reported = 0;
